@@ -50,7 +50,7 @@ ASSUMPTIONS = [
 MINIMA = {"quick": {"entry_point_runs": 250, "repo_open_events": 300, "error_path_runs": 60, "cli_runs": 10}, "thorough": {"entry_point_runs": 2500}}
 MECH = "read-only"
 DATA = os.path.join(os.environ.get("VF_REPO", "/repo"), "tests", "data")
-ENTRY = ["vmdk-desc", "vmdk-delta", "vmdk-mono", "vhdx-diff", "vhdx-path", "hdd", "hdd-abs", "hdd-snap", "vmtar", "hyperv", "xmlcfg", "vmx", "cli", "cli-errors", "streams"]
+ENTRY = ["vmdk-desc", "vmdk-delta", "vmdk-mono", "vhdx-diff", "vhdx-path", "hdd", "hdd-abs", "hdd-snap", "vmtar", "hyperv", "xmlcfg", "vmx", "cli", "cli-errors", "streams", "filehandles"]
 
 
 def plan(tier: str, seed: int) -> list[dict]:
@@ -236,6 +236,24 @@ def build_and_run(k: str, rng, ctx, root: Path, fault, res, phase: str = "both")
             tree = {"configuration": {"a": whv.Val("int", 5), "s": whv.Val("string", "x" * 3000, file_object=True), "sub": {"b": whv.Val("bool", 1)}}}
             raw, _ = whv.build(rng, tree, ntables=2, stale_tables=1, replay_entries=rng.choice([0, 2, 5]))
             (root / "vm.vmcx").write_bytes(raw)
+        elif k == "filehandles":
+            # one image of every handle-based disk class, to be opened through real file objects ("rb" and "r+b")
+            from vf.writers import hds as whds_
+            from vf.writers import qcow2 as wq
+            from vf.writers import vdi as wvdi
+            from vf.writers import vhd as wvhd
+            from vf.writers import vhdx as wvhdx
+
+            cb = rng.choice([9, 12])
+            views = [wq.make_view(rng, size=12 << cb, cluster_bits=cb, kinds=[rng.choice("NZUC") for _ in range(12)], extl2=False, tag=t) for t in (1, 2, 3)]
+            metas = [{"id": str(i + 1).encode(), "name": f"snap {i}".encode(), "extra_size": 16} for i in range(2)]
+            img, _, _ = wq.build(rng, cluster_bits=cb, size=12 << cb, views=views, version=3, placement="shuffle", snapshots_meta=metas)
+            img.write_to(root / "snap.qcow2")
+            wvhd.build_dynamic(rng, block_size=4096, nblocks=6, tag=4)[0].write_to(root / "d.vhd")
+            wvhdx.build(rng, block_size=1 << 20, sector_size=512, nblocks=3, states=[6, 0, 6], tag=5, checksums=False)[0].write_to(root / "d.vhdx")
+            wvdi.build(rng, block_size=4096, nblocks=8, tag=6)[0].write_to(root / "d.vdi")
+            whds_.build_hds(rng, version=2, m_sectors=8, nclusters=6, tag=7, in_use=rng.random() < 0.5)[0].write_to(root / "d.hds")
+            wvmdk.build_hosted(rng, capacity=300, grain=8, ngte=64, tag=8)[0].write_to(root / "s.vmdk")
         elif k == "xmlcfg":
             (root / "vm.ovf").write_text(wcfg.gen_ovf(rng)[0])
             (root / "vm.vbox").write_text(wcfg.gen_vbox(rng)[0])
@@ -311,6 +329,36 @@ def build_and_run(k: str, rng, ctx, root: Path, fault, res, phase: str = "both")
                     res["viol"].append({"what": "write/truncate called on a caller-supplied handle", "mech": MECH, "detail": {"entry_point": k, "calls": fh.mutations[:3]}})
                 res["sets"].setdefault("handle_modes", []).append(hmode)
                 return o_
+            if k == "filehandles":
+                from dissect.hypervisor.disk.hdd import HDS
+                from dissect.hypervisor.disk.qcow2 import QCow2
+                from dissect.hypervisor.disk.vdi import VDI
+                from dissect.hypervisor.disk.vhd import VHD
+                from dissect.hypervisor.disk.vhdx import VHDX
+                from dissect.hypervisor.disk.vmdk import VMDK
+
+                last = None
+                for cls, fn in ((QCow2, "snap.qcow2"), (VHD, "d.vhd"), (VHDX, "d.vhdx"), (VDI, "d.vdi"), (HDS, "d.hds"), (VMDK, "s.vmdk")):
+                    hmode = rng.choice(["rb", "r+b", "r+b"])
+                    try:
+                        fh = FlakyFile(root / fn, rng.randrange(1, 9)) if fault == "ioerror" else open(root / fn, hmode)
+                    except FileNotFoundError:
+                        continue
+                    handles.append(fh)
+                    res["sets"].setdefault("handle_modes", []).append(f"{cls.__name__}:{hmode}")
+
+                    def f(cls=cls, fh=fh):
+                        d = cls(fh)
+                        out = [len(d.read(70000))]
+                        for sn in getattr(d, "snapshots", []) or []:
+                            # views derived from an opened image (internal snapshots) must not re-open the file for writing either
+                            v = sn.open()
+                            out.append(len(v.read(70000)))
+                            handles.append(v)
+                        return out
+
+                    last = call(f)
+                return last
             if k == "xmlcfg":
                 from dissect.hypervisor.descriptor.ovf import OVF
                 from dissect.hypervisor.descriptor.pvs import PVS
